@@ -11,6 +11,7 @@ success; a block is its submission number.  Traces are newest-event-first.
 -/
 import Hts.Lemmas.WriterLTSAcc
 import Hts.Lemmas.WriterLTSWitness
+import Hts.Lemmas.WriterLTSOwn
 namespace Hts.Props.C12
 open Hts.Model.WriterLTS
 
@@ -71,6 +72,13 @@ theorem bam_header_durable (hr : cfg.repaired = true) {k : Nat} {rest : List Op}
   refine ⟨hm, ?_⟩
   rw [← hm]
   exact wait_durable_all hr h (by rw [htr]; simp)
+
+/-- Every compressor — its 64 KiB block buffer and its gzip output buffer — has at most one holder among the API
+    goroutine (active compressor), the `waiting` channel, the `queue` channel (whose `writeBlock` goroutine fills
+    it) and the emitter, in every reachable state of either protocol variant: a block being compressed or written
+    is never overwritten by a later `Write`. -/
+theorem compressor_exclusive (h : Reachable cfg s) (c : Nat) : holders c s ≤ 1 :=
+  reachable_holders h c
 
 /-! ### non-vacuity: the hypotheses are satisfiable and the conclusions are not trivial -/
 
